@@ -259,7 +259,10 @@ class SyncObj(object):
         self.__newAppendEntriesTime = 0
 
         self.__commandsWaitingCommit = collections.defaultdict(list)  # logID => [(termID, callback), ...]
-        self.__commandsLocalCounter = 0
+        # Request ids must not repeat after a restart: the answer to a request of the previous
+        # incarnation (it may wait in another node's queue for a leader) would be taken for the
+        # answer to a new request with the same id.
+        self.__commandsLocalCounter = random.getrandbits(48)
         self.__commandsWaitingReply = {}  # commandLocalCounter => callback
 
         self.__properies = set()
